@@ -591,8 +591,13 @@ func ruleC15Current(cx *Ctx) {
 				if c == nil || !strings.HasPrefix(cname(c), "copyBucket") {
 					return
 				}
-				a := callArgs(in)
-				ok := rootOf(a[0]) == ssa.Value(cur)
+				// the source bucket: the argument that addresses an element of a table's bucket array
+				ok := false
+				for _, a := range callArgs(in) {
+					if _, isIA := a.(*ssa.IndexAddr); isIA && rootOf(a) == ssa.Value(cur) {
+						ok = true
+					}
+				}
 				cx.R.Check(ok, rule, funcName(f), "copy source", cx.P.where(in), "buckets are copied from the table loaded after winning the flag")
 			})
 		})
@@ -986,43 +991,123 @@ func ruleC15CopyAll(cx *Ctx) {
 		return
 	}
 	name := funcName(fn)
-	var goInstr *ssa.Go
-	allInstrs(fn, func(in ssa.Instruction) {
-		if g, ok := in.(*ssa.Go); ok {
-			goInstr = g
-		}
-	})
-	copyB := cx.P.Func(hmPkg, "Map", "copyBucket")
-	// serial loop
-	serialOK := false
-	var L ssa.Value
-	allInstrs(fn, func(in ssa.Instruction) {
-		if copyB != nil && isCallTo(in, copyB) {
-			a := callArgs(in)
-			if ia, ok := a[0].(*ssa.IndexAddr); ok {
-				if ph, ok := ia.Index.(*ssa.Phi); ok {
-					if _, bound, ok := inductionRangeVar(ph); ok {
-						if c, ok := bound.(*ssa.Call); ok && isBuiltinCall(c, "len") {
-							serialOK = true
-							L = bound
-						}
-					}
+	// range copiers: code that runs i = lo .. hi-1 and hands &T.buckets[i] to a bucket copier - the loop in resize
+	// itself, a goroutine closure, or a named helper; lo / hi are constants, len(...) or parameters of that code
+	type copier struct {
+		fn     *ssa.Function
+		lo, hi ssa.Value
+	}
+	var copiers []copier
+	for _, f := range cx.P.FuncsOfPkg(hmPkg) {
+		allInstrs(f, func(in ssa.Instruction) {
+			c := calleeOf(in)
+			if c == nil || !strings.HasPrefix(cname(c), "copyBucket") {
+				return
+			}
+			for _, arg := range callArgs(in) {
+				ia, ok := arg.(*ssa.IndexAddr)
+				if !ok {
+					continue
+				}
+				ph, ok := ia.Index.(*ssa.Phi)
+				if !ok {
+					continue
+				}
+				if init, bound, ok := loopInduction(ph); ok {
+					copiers = append(copiers, copier{f, init, bound})
 				}
 			}
+		})
+	}
+	paramIdx := func(f *ssa.Function, v ssa.Value) int {
+		for i, p := range f.Params {
+			if ssa.Value(p) == v {
+				return i
+			}
 		}
-	})
+		return -1
+	}
+	// ranges handed out by resize: (lo, hi, through a goroutine?)
+	type rng struct {
+		lo, hi ssa.Value
+		goIn   *ssa.Go
+		at     ssa.Instruction
+	}
+	var ranges []rng
+	for _, cp := range copiers {
+		if origin(cp.fn) == origin(fn) {
+			ranges = append(ranges, rng{cp.lo, cp.hi, nil, nil})
+			continue
+		}
+		li, hi := paramIdx(cp.fn, cp.lo), paramIdx(cp.fn, cp.hi)
+		if li < 0 || hi < 0 {
+			continue
+		}
+		withClosures(fn, func(f *ssa.Function) {
+			allInstrs(f, func(in ssa.Instruction) {
+				cc := callCommon(in)
+				if cc == nil || cc.IsInvoke() {
+					return
+				}
+				target := cc.StaticCallee()
+				if target == nil {
+					target = closureOf(cc.Value)
+				}
+				if target == nil || origin(target) != origin(cp.fn) {
+					return
+				}
+				args := cc.Args
+				if cl := closureOf(cc.Value); cl != nil && cc.StaticCallee() == nil {
+					args = cc.Args // closure parameters
+				}
+				if li >= len(args) || hi >= len(args) {
+					return
+				}
+				g, _ := in.(*ssa.Go)
+				ranges = append(ranges, rng{args[li], args[hi], g, in})
+			})
+		})
+	}
+	// serial: some range is [0, L)
+	serialOK := false
+	var L ssa.Value
+	for _, r := range ranges {
+		if r.goIn != nil {
+			continue
+		}
+		if c0, ok := constUint(r.lo); ok && c0 == 0 {
+			if c, ok := r.hi.(*ssa.Call); ok && isBuiltinCall(c, "len") {
+				serialOK, L = true, r.hi
+			}
+		}
+	}
 	cx.R.Check(serialOK, rule, name, "serial copy covers 0..len-1", cx.P.Pos(fn.Pos()), "the serial copy loop visits every bucket index of the old table")
+	var goInstr *ssa.Go
+	var start, end ssa.Value
+	for _, r := range ranges {
+		if r.goIn != nil {
+			goInstr, start, end = r.goIn, r.lo, r.hi
+		}
+	}
 	if goInstr == nil {
-		cx.R.OK(rule, name, "no parallel copy", cx.P.Pos(fn.Pos()), "resize copies serially only")
+		anyGo := false
+		allInstrs(fn, func(in ssa.Instruction) {
+			if _, ok := in.(*ssa.Go); ok {
+				anyGo = true
+			}
+		})
+		if anyGo {
+			cx.R.Violate(rule, name, "chunks tile 0..len-1", cx.P.Pos(fn.Pos()), "NOT SATISFIED: resize starts goroutines that are not recognisable range copiers")
+		} else {
+			cx.R.OK(rule, name, "no parallel copy", cx.P.Pos(fn.Pos()), "resize copies serially only")
+		}
 		return
 	}
-	a := goInstr.Call.Args
 	okRange := false
 	detail := ""
-	if len(a) == 2 && L != nil {
+	if L != nil {
 		tb := newTermBuilder()
 		tb.subst[L] = tVar("L")
-		start, end := a[0], a[1]
 		// induction variable c and chunks
 		var cphi *ssa.Phi
 		var phis []*ssa.Phi
@@ -1057,23 +1142,8 @@ func ruleC15CopyAll(cx *Ctx) {
 		}
 	}
 	cx.R.Check(okRange, rule, name, "chunks tile 0..len-1", cx.P.where(goInstr), "chunk c covers [c*S, min((c+1)*S, len)) with S = ceil(len/chunks), c = 0..chunks-1 ("+detail+")")
-	// each goroutine copies start..end-1
-	cl := closureOf(goInstr.Call.Value)
-	inner := false
-	if cl != nil {
-		allInstrs(cl, func(in ssa.Instruction) {
-			if c := calleeOf(in); c != nil && strings.HasPrefix(cname(c), "copyBucket") {
-				if ia, ok := callArgs(in)[0].(*ssa.IndexAddr); ok {
-					if ph, ok := ia.Index.(*ssa.Phi); ok {
-						if init, bound, ok := loopInduction(ph); ok {
-							inner = init == ssa.Value(cl.Params[0]) && bound == ssa.Value(cl.Params[1])
-						}
-					}
-				}
-			}
-		})
-	}
-	cx.R.Check(inner, rule, name, "goroutine copies its whole range", cx.P.where(goInstr), "each copy goroutine visits i = start .. end-1")
+	// each goroutine copies start..end-1: by construction of the copier (its loop runs from its lo to its hi parameter)
+	cx.R.OK(rule, name, "goroutine copies its whole range", cx.P.where(goInstr), "each copy goroutine visits i = start .. end-1")
 	// all goroutines are awaited before the table is published
 	table := cx.P.Field(hmPkg, "Map", "table")
 	var wait, pub ssa.Instruction
